@@ -36,7 +36,8 @@ def _finishes_enclosing(stmts, enclosing=()):
 
 
 def known(case, obs, failure):
-    fails_on_end = any(d[1][0] in ("on_end", "always") for o in case["pre"] if o[0] == "add" for d in o[1])
+    # some destination failed during the run (the report about the end message is what lands after it)
+    fails_on_end = isinstance(obs, dict) and any(any(f) for f in obs.get("fails", {}).values())
     if _finishes_enclosing(case["prog"]) and fails_on_end and isinstance(failure, str) and "end message" in failure:
         return "F6-finish-while-current"
     return None
